@@ -70,9 +70,15 @@ class SerialQueueImpl {
         operations.pop_front();
       }
 
-      // If we got a nil function, the queue is shutting down.
-      if (!fn)
-        break;
+      // If we got a nil function, the queue is shutting down. Operations
+      // enqueued behind the sentinel by a running operation must still run.
+      if (!fn) {
+        std::lock_guard<std::mutex> guard(operationsMutex);
+        if (operations.empty())
+          break;
+        operations.push_back(fn);
+        continue;
+      }
       
       // Execute the operation.
       fn();
